@@ -1,5 +1,5 @@
 (* C02 — emission follows the configured schedule, independent of block cadence. *)
-From C4E Require Import Base Minter MinterProofs.
+From C4E Require Import Base Minter MinterProofs MinterWalk.
 Open Scope Z_scope.
 
 (* no block mints a negative amount, and what a block mints is exactly the growth of
@@ -79,6 +79,49 @@ Proof.
   apply exp_sum_mono; assumption.
 Qed.
 Print Assumptions C02_exponential_epoch_sums_monotone.
+
+(* THE property, over whole histories: for every configuration accepted by validation (with linear
+   periods spanning at least a millisecond), every genesis state with zero counters at the first
+   period, and every strictly increasing sequence of block times after the genesis time (up to the
+   int64 nanosecond range of time.Time): no BeginBlock fails, and the total minted is the integer
+   part of the schedule's exact cumulative emission at the last block time — a function of that time
+   only, so any two partitions of the same span mint the same total *)
+Theorem C02_cumulative_mint_is_floor_of_schedule :
+  forall p g ts Tl,
+  params_valid p = true -> periods_sane_from (mp_start p) (mp_minters p) -> mp_denom_ok p = true -> 0 <= mp_start p ->
+  match mp_minters p with cur :: _ => s_seq g = m_seq cur | [] => True end -> s_minted g = 0 -> s_rem_prev g = 0 ->
+  s_last g <= Tl -> increasing Tl ts -> Forall (fun t => t <= MAXI64) ts -> ts <> [] ->
+  exists st', run_blocks p g ts =
+    Ok ((if last ts Tl <? mp_start p then 0 else dec_trunc_int (exact_sum (mp_start p) (mp_minters p) (last ts Tl))), st').
+Proof.
+  intros p g ts Tl Hv Hs Hd H0 Hg1 Hg2 Hg3 H1 H2 H3 H4.
+  exact (partition_independence p (valid_chain _ _ _ Hv Hs) Hd H0 g Hg1 Hg2 Hg3 ts Tl H1 H2 H3 H4).
+Qed.
+Print Assumptions C02_cumulative_mint_is_floor_of_schedule.
+
+Corollary C02_partition_independent :
+  forall p g ts1 ts2 Tl,
+  params_valid p = true -> periods_sane_from (mp_start p) (mp_minters p) -> mp_denom_ok p = true -> 0 <= mp_start p ->
+  match mp_minters p with cur :: _ => s_seq g = m_seq cur | [] => True end -> s_minted g = 0 -> s_rem_prev g = 0 ->
+  s_last g <= Tl -> increasing Tl ts1 -> increasing Tl ts2 ->
+  Forall (fun t => t <= MAXI64) ts1 -> Forall (fun t => t <= MAXI64) ts2 -> ts1 <> [] -> ts2 <> [] ->
+  last ts1 Tl = last ts2 Tl ->
+  exists a st1 st2, run_blocks p g ts1 = Ok (a, st1) /\ run_blocks p g ts2 = Ok (a, st2).
+Proof.
+  intros p g ts1 ts2 Tl Hv Hs Hd H0 Hg1 Hg2 Hg3 H1 Hi1 Hi2 Hm1 Hm2 Hn1 Hn2 Hl.
+  destruct (C02_cumulative_mint_is_floor_of_schedule p g ts1 Tl Hv Hs Hd H0 Hg1 Hg2 Hg3 H1 Hi1 Hm1 Hn1) as (s1 & E1).
+  destruct (C02_cumulative_mint_is_floor_of_schedule p g ts2 Tl Hv Hs Hd H0 Hg1 Hg2 Hg3 H1 Hi2 Hm2 Hn2) as (s2 & E2).
+  rewrite Hl in E1. eauto.
+Qed.
+Print Assumptions C02_partition_independent.
+
+(* one BeginBlock in closed form: from any state sitting in a period of the validated list with a
+   counter not ahead of the schedule, the block mints (closed-form total) - (already minted) *)
+Theorem C02_one_block_closed_form :
+  forall l pid pend now c, chain pid pend l -> 0 <= pend <= now -> now <= MAXI64 -> 0 <= c < P ->
+  wtot (walk pend l now c) = dec_trunc_int (exact_sum pend l now + c) /\ 0 <= exact_sum pend l now.
+Proof. exact walk_closed_form. Qed.
+Print Assumptions C02_one_block_closed_form.
 
 (* non-vacuity: linear 1000 over 1000 s followed by no-minting; blocks at 300.5 s, 999 s, 1500 s *)
 Example C02_example :
